@@ -12,7 +12,15 @@ class Scratch:
     """Scratch working directory outside /repo and /verif with an inputs/ and outputs/ folder; removed afterwards."""
 
     def __enter__(self):
-        self.dir = tempfile.mkdtemp(prefix="verif-scratch-")
+        base = None
+        if os.environ.get("VERIF_ALT_SCRATCH") == "1" and os.path.isdir("/dev/shm") and os.access("/dev/shm", os.W_OK):
+            # a working directory on another filesystem than the default temporary directory
+            try:
+                if os.stat("/dev/shm").st_dev != os.stat(tempfile.gettempdir()).st_dev:
+                    base = "/dev/shm"
+            except OSError:
+                base = None
+        self.dir = tempfile.mkdtemp(prefix="verif-scratch-", dir=base)
         os.makedirs(os.path.join(self.dir, "inputs"))
         os.makedirs(os.path.join(self.dir, "outputs"))
         self.cwd = os.getcwd()
